@@ -336,7 +336,7 @@ end
 
 end
 
-/-- a fuel that always suffices (see `Lemmas/MatchFuel`): every recursive call consumes a
+/-- a fuel that always suffices (see `Lemmas/MatchTotal`): every recursive call consumes a
 goal, a candidate or descends into a child -/
 def matchFuel (p : PNode) (t : Tree) : Nat := 4 * (p.size + 1) * (t.size + 1) + 8
 
